@@ -10,10 +10,11 @@ suite=$(go test -count=1 $(go list ./... 2>/dev/null | grep -v /seeded) 2>&1 | g
 git checkout -q -- .
 echo "[$P/z] suite-with-change: ${suite:-PASS}"
 mkdir -p /verif/seeded/$P-${TAG}z && cp $S/patch.diff $S/meta.json /verif/seeded/$P-${TAG}z/
-cd /repo && git apply --check $S/patch.diff 2>/dev/null || { echo "[$P/z] patch does not apply to /repo HEAD"; exit 3; }
-git apply $S/patch.diff
-trap 'git -C /repo checkout -q -- .' EXIT
-cd /verif && ./bin/check $P --no-evidence "$@" > /tmp/eval-$P-z.log 2>&1
+W=/tmp/exp/ev-$P-z-$$; mkdir -p /tmp/exp
+git -C /repo worktree add -q --detach $W HEAD || exit 2
+trap 'git -C /repo worktree remove --force '$W' 2>/dev/null' EXIT
+(cd $W && git apply $S/patch.diff 2>/dev/null) || { echo "[$P/z] patch does not apply to /repo HEAD"; exit 3; }
+cd /verif && VERIF_REPO=$W ./bin/check $P --no-evidence "$@" > /tmp/eval-$P-z.log 2>&1
 rc=$?
 grep "^violation:\|^check: property" /tmp/eval-$P-z.log | cut -c1-220 | head -6
 echo "[$P/z] (benign) check exit code: $rc   (0 expected)"
